@@ -496,6 +496,10 @@ def run(ctx):
                       construct="before-count")
         else:
             r.bad("before|count", "anchor-missing: lines::preceding in before_context_by_line", fn=g)
+    with ctx.rule("C03.PHANTOM", "context lines only next to a delivered line: none for the empty range at EOF (shared with C13.PHANTOM)",
+                  floor=1, kind="GUARD") as r:
+        from . import c13
+        c13.phantom_rule(ctx, r)
     with ctx.rule("C03.WINDOW", "before-context starts at the last visited line; after-context stops when none is owed", floor=2,
                   kind="FLOW/A3") as r:
         f = facts.fn(CORE + "::before_context_by_line")
